@@ -151,16 +151,14 @@ func createXmlNamespaces(attrs []xml.Attr) []XmlNamespace {
 	ret = append(ret, ns)
 
 	for _, i := range attrs {
-		if i.Name.Space == "" && i.Name.Local == xmlns {
+		if i.Name.Space == xmlns {
 			ns = XmlNamespace{
-				prefix: "",
+				prefix: i.Name.Local,
 				value:  i.Value,
 			}
 
 			ret = append(ret, ns)
-		}
-
-		if i.Name.Local == xmlns {
+		} else if i.Name.Local == xmlns {
 			ns = XmlNamespace{
 				prefix: i.Name.Space,
 				value:  i.Value,
